@@ -146,11 +146,86 @@ class Check(PropertyCheck):
                                                  {"spec": repr(spec), "history": "run twice"}))
         finally:
             shutil.rmtree(tmp, ignore_errors=True)
+        # 3. task matrix: sync/async x check_valid full/shallow x where the failure happens, fresh Scheduler per
+        #    execution on one sqlite file (as repeated `redun run`): run 1 fails, run 2 must execute the failing body
+        #    again and fail again, run 3 (cause of the failure removed) must succeed, run 4 is a plain replay
+        nb += self.task_matrix()
         self.stat("oracle", "violations", nb)
         self.ob("oracle", "implementation oracle ran (same error type/message, failed chain, failed calls re-executed next run)", True)
 
+    def task_matrix(self):
+        import logging
+        from redun import Scheduler
+        from redun.config import Config
+        from harness.progs import c12_tasks as T
+        logging.getLogger("redun").setLevel(logging.ERROR)
+        tmp = scratch_dir("rv_c12m_")
+        nb = 0
+        combos = [(sh, pa, le) for sh in ("leaf", "parent", "top") for pa in T.PARENTS for le in T.LEAVES
+                  if sh != "leaf" or pa == "par_sync_full"]
+        if self.tier == "quick":
+            self.rng.shuffle(combos)
+            combos = combos[:14] + [c for c in combos[14:] if "async" in c[1] + c[2]][:8]
+        try:
+            for i, (sh, pa, le) in enumerate(combos):
+                db = tmp / f"m{i}.db"
+                x = 100 + i
+
+                def run():
+                    s = Scheduler(config=Config({"backend": {"db_uri": f"sqlite:///{db}"}}))
+                    s.load()
+                    s.logger.disabled = True
+                    del T.CALLS[:]
+                    try:
+                        return ("val", s.run(T.program(sh, pa, le, x))), list(T.CALLS)
+                    except Exception as e:  # noqa: BLE001
+                        return ("err", type(e).__name__, str(e)), list(T.CALLS)
+                T.FAIL[0] = True
+                r1, c1 = run()
+                r2, c2 = run()
+                T.FAIL[0] = False
+                r3, c3 = run()
+                r4, c4 = run()
+                self.evaluations += 1
+                self.stat("matrix", f"{sh}/{'async' if 'async' in pa and sh != 'leaf' else 'sync'}-parent/{'async' if 'async' in le else 'sync'}-leaf")
+                want_err = ("err", "ValueError", f"boom-{le}-{x}")
+                what = None
+                if r1 != want_err:
+                    what = ("first-run", f"run 1 gave {r1!r}, expected {want_err!r}")
+                elif r2 != want_err:
+                    what = ("second-run-differs", f"run 2 gave {r2!r}, expected the same failure {want_err!r}")
+                elif le not in c2:
+                    what = ("failed-call-replayed", f"run 2 raised the recorded error without executing {le} again (bodies run: {c2})")
+                elif r3[0] != "val" or le not in c3:
+                    what = ("failure-sticks", f"run 3 (cause removed) gave {r3!r}, bodies run {c3}: the failed call was not executed again")
+                elif r4 != r3:
+                    what = ("values-not-replayed", f"run 4 gave {r4!r}, run 3 {r3!r}")
+                if what:
+                    nb += 1
+                    self.findings.append(Finding(f"matrix:{what[0]}:{sh}:{pa if sh != 'leaf' else '-'}:{le}", what[1],
+                                                 {"matrix": [sh, pa, le], "history": "fail, fail, repaired, replay"}))
+        finally:
+            T.FAIL[0] = True
+            shutil.rmtree(tmp, ignore_errors=True)
+        return nb
+
     def replay(self, doc):
         r = doc.get("replay", {})
+        if "matrix" in r:
+            from harness.progs import c12_tasks as T
+            self.findings, self.evaluations, self.tier = [], 0, "thorough"
+            keep = tuple(r["matrix"])
+            orig = (dict(T.PARENTS), dict(T.LEAVES))
+            sh, pa, le = keep
+            T.PARENTS = {pa: orig[0][pa]}
+            T.LEAVES = {le: orig[1][le]}
+            try:
+                self.task_matrix()
+            finally:
+                T.PARENTS, T.LEAVES = orig
+            bad = [f for f in self.findings if f.replay.get("matrix") == list(keep)]
+            print("replay:", "still fails: " + bad[0].what if bad else "holds now")
+            return 1 if bad else 0
         if "spec" in r:
             spec = eval(r["spec"])
             out = sched.run_program(lambda: vm.call(spec), {}, random.Random(0))
